@@ -68,7 +68,7 @@ def run(ctx):
                               {"line": guesses["calculate_largest_base"], "error": str(e)})
                 return n_cases
             R = iroot(2 ** V - 1, bb)
-            if not (g >= 0 and abs(g - R) <= WINDOW):
+            if not (g >= 0 and abs(g - R) <= WINDOW) and not found:
                 # hypothesis of largest_base_total violated by the real guess: does the real function still behave?
                 try:
                     out = calculate_largest_base(bb, bits, sg)
@@ -112,7 +112,7 @@ def run(ctx):
                           {"line": guesses["calculate_largest_power"], "error": str(e)})
             return n_cases
         hyp = 0 <= g <= WINDOW and (g > 1 or 2 ** V <= av * av)
-        if not hyp:
+        if not hyp and not found:
             # the unchecked early return `if b <= 1: return 1` would be wrong here
             truth = max(p for p in range(0, 300) if (-(2 ** V) if sg else 0) <= av ** p < 2 ** V)
             try:
@@ -129,7 +129,7 @@ def run(ctx):
                               {"a": str(av), "bits": bits, "signed": sg, "guess": str(g)})
         pcs.append((av, bits, sg, g))
     # ---------------- model vs real (translation validation + independent expected value)
-    if model_ok:
+    if model_ok and not found:
         imports = ("From Verif Require Import Base.PyInt C20.GenPow.\n"
                    "Definition showp (r : res Z) : Z := match r with Ok v => v | Err _ => -1 end.\n"
                    "Definition showb (r : res (Z * Z)) : list Z := match r with Ok (l, h) => [l; h] | Err _ => [-1; -1] end.\n")
@@ -138,7 +138,12 @@ def run(ctx):
              "; ".join(f"({coqrun.hexlit(bb)}, {bits}, {'true' if sg else 'false'}, {coqrun.hexlit(g)})" for bb, bits, sg, g, R in bq) + "]"
         e2 = "map (fun c => match c with (a, nb, sg, g) => showp (calculate_largest_power a nb sg g) end) [" + \
              "; ".join(f"({coqrun.hexlit(av)}, {bits}, {'true' if sg else 'false'}, {coqrun.hexlit(g)})" for av, bits, sg, g in pcs) + "]"
-        o1, o2 = coqrun.eval_zlists(imports, [e1, e2], "c20pow", shard=1, timeout=300)
+        try:
+            o1, o2 = coqrun.eval_zlists(imports, [e1, e2], "c20pow", shard=1, timeout=200)
+        except RuntimeError as e:
+            ctx.violation("correspondence-broken", "evaluating the translated calculate_largest_* in Coq failed / timed out",
+                          {"error": str(e)[-400:]})
+            bq, pcs, o1, o2 = [], [], [], []
         for i, (bb, bits, sg, g, R) in enumerate(bq):
             model = (o1[2 * i], o1[2 * i + 1])
             try:
